@@ -193,8 +193,13 @@ def _is_idx_lambda_broadcast_op(expr: IndexLambda) -> bool:
     from_shape = expr.bindings[input_name].shape
     to_shape = expr.shape
 
+    if len(from_shape) > len(to_shape):
+        return False
+
     for in_dim, brdcst_dim in zip(from_shape,
-                                  to_shape[-len(from_shape):],
+                                  # (not [-len(from_shape):]: that is the
+                                  # whole of to_shape for a 0-d operand)
+                                  to_shape[len(to_shape)-len(from_shape):],
                                   strict=True):
         if (not are_shape_components_equal(in_dim, brdcst_dim)
                 and not are_shape_components_equal(in_dim, 1)):
